@@ -11,6 +11,7 @@ package stringy
 import (
 	"context"
 	"regexp"
+	"strings"
 
 	tq "github.com/facebookincubator/tacquito"
 	"github.com/facebookincubator/tacquito/cmds/server/config"
@@ -90,12 +91,14 @@ func (a CommandBasedAuthorizer) evaluate() bool {
 		}
 	}
 	for _, c := range a.user.Commands {
-		c.TrimSpace()
-		if c.Name == "*" {
+		// trim into locals.  the rule and its Match slice are shared by every request of this user (and
+		// with the loaded config), trimming them in place would be a data race
+		name := strings.TrimSpace(c.Name)
+		if name == "*" {
 			// special condition of allow anything
 			return returnBool(c.Action)
 		}
-		if c.Name != cmd {
+		if name != cmd {
 			continue
 		}
 		if len(c.Match) == 0 {
@@ -104,6 +107,7 @@ func (a CommandBasedAuthorizer) evaluate() bool {
 		}
 
 		for _, regexish := range c.Match {
+			regexish = strings.TrimSpace(regexish)
 			if len(regexish) == 0 {
 				continue
 			}
